@@ -143,6 +143,7 @@ pub fn label_shape_bw(input: &BwInput, o: &Opts, obs: &mut crate::runner::Obs) -
         input.chroms.iter().any(|c| c.vals.last().map(|v| v.e == c.size).unwrap_or(false)),
         "touches-chrom-end",
     );
+    obs.label_if(input.chroms.iter().any(|c| c.size > i32::MAX as u32), "coordinates-beyond-2^31");
     obs.label_if(!input.unused.is_empty(), "unused-size-entries");
     obs.label_if(input.chroms.iter().any(|c| c.size > 1_000_000_000), "huge-chrom");
     (max_sections, depth)
